@@ -4,6 +4,7 @@ import (
 	"encoding/binary"
 	"fmt"
 	"math/rand"
+	"os"
 	"sort"
 	"strings"
 	"testing"
@@ -274,7 +275,7 @@ func runSurveyor(t *testing.T, cfg svCfg) sim.Result {
 				p.Release()
 			}
 		}
-		c.step("adv 1000s")
+		c.step("adv 600s")
 		s.Wait()
 		g := sim.Census()
 		sort.Strings(g)
@@ -354,11 +355,31 @@ func svRandom(rng *rand.Rand) svCfg {
 	return c
 }
 
+func svDeadline() []svCfg {
+	var out []svCfg
+	us := time.Microsecond
+	for _, d := range []time.Duration{1 * us, time.Millisecond, time.Second, 300 * time.Second} {
+		just := (d - us).String()
+		// receive deadline shorter than, equal to and longer than the survey time
+		for _, sv := range []time.Duration{0, d, 2 * d, d / 2} {
+			if sv%us != 0 {
+				continue // below the trace's time resolution
+			}
+			out = append(out, svCfg{Opts: []svCtxOpt{{SurvExp: sv, RecvExp: d, QLen: 2}}, SQ: 1, Steps: []string{
+				"conn", "survey c0", "recv c0", "adv " + just, "adv 1us", "recv c0", "resp p1 cur c0", "recv c0", "adv " + d.String(), "recv c0"}})
+		}
+	}
+	return out
+}
+
 func TestSurveyor(t *testing.T) {
 	out := newOut(t, "surveyor")
 	defer out.Close()
 	rng := rand.New(rand.NewSource(seed()))
 	cfgs := svScripted()
+	if os.Getenv("VERIF_MIX") == "deadline" {
+		cfgs = svDeadline()
+	}
 	for i := 0; i < count(100, 1500); i++ {
 		cfgs = append(cfgs, svRandom(rng))
 	}
